@@ -9,7 +9,9 @@ from sem import run_semantic
 
 MODULE = "Proofs.Props.C13"
 THEOREMS = ["Facto.Circuit.evalEnt_local", "Facto.scalar_end_to_end", "Facto.read_isolated",
-            "Facto.evalNode_setTy", "Facto.retype_rel", "Facto.retype_nodeVal", "Facto.retype_bundle", "Facto.retyped_builds_agree"]
+            "Facto.evalNode_setTy", "Facto.retype_rel", "Facto.retype_nodeVal", "Facto.retype_bundle", "Facto.retyped_builds_agree",
+            "Facto.get_renameSigs", "Facto.support_renameSigs", "Facto.evalNode_rename", "Facto.rename_evalNodes", "Facto.rename_argVal", "Facto.rename_bundle",
+            "Facto.swaps_injective", "Facto.scalar_end_to_end_renamed", "Facto.bundle_end_to_end_renamed", "Facto.bundle_end_to_end_renamed_foreign"]
 WILD = {"signal-each", "signal-anything", "signal-everything"}
 
 
